@@ -71,7 +71,7 @@ def bool_table_text():
     from midgard.config.config import ConfigurationEntry
     tab = ConfigurationEntry._BOOLEAN_STATES
     rows = []
-    for k, v in tab.items():
+    for k, v in sorted(tab.items()):      # a dict: the order of the literal in the source is irrelevant
         if not isinstance(k, str) or not isinstance(v, bool):
             raise RuntimeError(f"_BOOLEAN_STATES entry {k!r}: {v!r} is not str -> bool")
         rows.append(emit.pair(emit.s(k), emit.b(v)))
@@ -640,6 +640,7 @@ def run(ctx):
     counter = [0]
     cases = []
     outside = []
+    n_samples = [0]
 
     def add(case, kind):
         case["kind"] = kind
@@ -657,8 +658,15 @@ def run(ctx):
             ctx.count(f"op:{o['op']}:{r[0] if r[0] == 'ok' else r[1]}")
         for q, a in zip(case["queries"], case["answers"]):
             ctx.count(f"query:{q['q']}:{a[0] if a[0] == 'ok' else a[1]}")
+        want_sample = (kind.startswith("exhaustive3") and n_samples[0] < 2) or (kind == "random" and n_samples[0] < 5
+                                                                                and 2 <= len(case["ops"]) <= 5)
+        sample = None
+        if want_sample:
+            n_samples[0] += 1
+            sample = dict(kind=kind, operations=case["ops"], outcomes=case["outcomes"],
+                          queries=case["queries"][:12], observed=case["answers"][:12])
         ctx.case(json.dumps([case["ops"], case["queries"]], sort_keys=True, default=str),
-                 nontrivial=len(case["ops"]) >= 2, sample=None)
+                 nontrivial=len(case["ops"]) >= 2, sample=sample)
 
     # ---- corpus of earlier failures first
     for c in CORPUS:
@@ -675,7 +683,7 @@ def run(ctx):
             add(seq_case(seq, rng.randrange(0, 4), rng), f"exhaustive{length}")
             n_exh += 1
     nxt = canon_sequences(full_len + 1) if ctx.quick() else None
-    n_sample = int(scale * (700 if ctx.quick() else 6000))
+    n_sample = int(scale * (700 if ctx.quick() else 4000))
     if nxt is not None:
         for seq in rng.sample(nxt, min(n_sample, len(nxt))):
             add(seq_case(seq, rng.randrange(0, 4), rng), f"sampled{full_len + 1}")
@@ -688,7 +696,7 @@ def run(ctx):
             add(seq_case(seq + (ext,), rng.randrange(0, 4), rng), "sampled5")
 
     # ---- B. random sequences up to length 30 over all operations
-    n_rand = int(scale * (500 if ctx.quick() else 6000))
+    n_rand = int(scale * (500 if ctx.quick() else 4000))
     for i in range(n_rand):
         n = rng.choice([1, 2, 3, 4, 5, 6, 8, 10, 12, 16, 20, 30])
         ops = [gen_op(rng, ctx.work, counter) for _ in range(n)]
